@@ -594,7 +594,8 @@ SINGLE_KINDS = ["conv", "dw", "fc", "maxpool", "avgpool", "add", "sub", "mul", "
                 "mean_axis", "pool_big", "conv_stride_asym", "squeeze_expand", "ew16",
                 "concat_hw", "pad_conv", "fc_batch", "tconv_var", "resize_x", "ew_rank", "conv_big_kernel", "pool_then_ew",
                 "splitv", "slice_op", "unpack_pack", "sqdiff", "argmax", "quant_chain",
-                "mean_big", "pad_pool", "slice_masks", "dw_mult", "conv_1d", "exp", "rsqrt", "conv_groups", "pool_global_stride", "shape_op"]
+                "mean_big", "pad_pool", "slice_masks", "dw_mult", "conv_1d", "exp", "rsqrt", "conv_groups", "pool_global_stride", "shape_op",
+                "ew_self", "concat_dup", "ew_bcast2", "split_partial", "reshape_fan"]
 
 
 def fam_single_op(rng, kind=None):
@@ -987,6 +988,50 @@ def fam_single_op(rng, kind=None):
             alpha = net.tensor(ashape, x.dtype, a_sc, a_zp, codes.reshape(ashape), name="prelu_alpha")
             y = net.tensor(list(x.shape), x.dtype, _rs(rng, 0.01, 0.3) if rng.random() < 0.7 else x.scale, _zp(rng, x.dtype))
             net.op("PRELU", [x, alpha], [y], {})
+        elif kind == "ew_self":
+            # both operands are the same tensor
+            if rng.random() < 0.5:
+                x = unary(net, rng, "RELU", x)
+            y = elementwise(net, rng, rng.choice(["ADD", "MUL", "SUB", "MAXIMUM", "MINIMUM", "ADD"]), x, x, act=rng.choice(["NONE", "RELU"]))
+        elif kind == "concat_dup":
+            # one tensor more than once among the inputs of a concatenation
+            ax_ = rng.choice([3, 3, 2, 1])
+            o_ = pool(net, rng, x, "MAX_POOL_2D", (1, 1), (1, 1), "VALID") if rng.random() < 0.5 else x
+            parts_ = [x, x] if rng.random() < 0.5 else [x, o_, x]
+            y = concat(net, rng, parts_, axis=ax_, requant=(x.dtype == "uint8" and rng.random() < 0.3))
+        elif kind == "ew_bcast2":
+            # both operands are broadcast, along different axes
+            hh, ww, cc = rng.choice([3, 4, 7]), rng.choice([2, 5, 8]), rng.choice([1, 4, 16])
+            sa, sb = rng.choice([([1, hh, 1, cc], [1, 1, ww, cc]), ([1, hh, ww, 1], [1, 1, 1, cc]), ([1, 1, ww, 1], [1, hh, 1, cc]),
+                                 ([1, hh, 1, 1], [1, 1, ww, cc])])
+            x.shape[:] = sa
+            b_ = _inp(net, rng, list(sb), x.dtype) if rng.random() < 0.6 else const_like(net, rng, list(sb), x.dtype)
+            y = elementwise(net, rng, rng.choice(["ADD", "SUB", "MUL"]), x, b_)
+        elif kind == "split_partial":
+            # SPLIT whose outputs are graph outputs as they are, or partly unused
+            n_ = rng.choice([2, 3, 4])
+            ax_i = rng.choice([3, 3, 2, 1])
+            x.shape[ax_i] = n_ * rng.choice([1, 2, 4, 8])
+            ax = net.tensor([], "int32", None, None, [ax_i], name="split_axis")
+            part = list(x.shape)
+            part[ax_i] = x.shape[ax_i] // n_
+            parts = [net.tensor(list(part), x.dtype, x.scale, x.zp) for _ in range(n_)]
+            net.op("SPLIT", [ax, x], parts, dict(NumSplits=n_))
+            used = [p_ for p_ in parts if rng.random() < 0.6] or parts[:1]
+            for p_ in used[1:]:
+                net.output(p_ if rng.random() < 0.5 else unary(net, rng, "RELU", p_))
+            y = used[0]
+        elif kind == "reshape_fan":
+            # a memory-only operator whose result has an NPU reader and a CPU reader and is a graph output
+            x2 = unary(net, rng, "RELU", x)
+            n_el = x2.shape[1] * x2.shape[2] * x2.shape[3]
+            r = reshape(net, rng, x2, [1, n_el] if rng.random() < 0.5 else [1, 1, x2.shape[1] * x2.shape[2], x2.shape[3]])
+            a_ = unary(net, rng, "RELU6", r)
+            b_ = cpu_only(net, rng, r)
+            if rng.random() < 0.5:
+                net.output(r)
+            net.output(b_)
+            y = a_
         elif kind == "conv_groups":
             g_ = rng.choice([2, 2, 4, 3])
             cg = rng.choice([1, 2, 4, 8])
